@@ -280,7 +280,7 @@ func runC04Mixed(c *Ctx, scAny any) {
 				if wl.readPat(s, st, 0, st.plan.Up, &st.upRead, "acceptor") {
 					st.upDone = true
 					if sc.CloseEnd {
-						<-wdone
+						Await(wdone)
 						s.Close()
 					}
 				}
